@@ -93,6 +93,13 @@ def sharesKleene (qs : List Query) (i : Nat) : Bool :=
   let mine := ((qs[i]!).filter (·.kleene)).map (·.ty)
   (qs.zipIdx).any fun (q, j) => j != i && q.any fun s => s.kleene && mine.contains s.ty
 
+/-- the stream contains an event type that query `i` does not use but another query of the set
+does: such an event closes the current graphlet when the queries run together and is invisible
+(unknown type) when query `i` runs alone -/
+def foreignType (qs : List Query) (i : Nat) (evs : List Ty) : Bool :=
+  let mine := (qs[i]!).types
+  evs.any fun t => !mine.contains t && (qs.zipIdx).any fun (q, j) => j != i && q.types.contains t
+
 def sharesType (qs : List Query) (i : Nat) : Bool :=
   let mine := (qs[i]!).types
   (qs.zipIdx).any fun (q, j) => j != i && q.any fun s => mine.contains s.ty
@@ -180,8 +187,8 @@ def step (st : St) (line : String) : St × String :=
             [(id, guard && s.asModel, s!"query {i} alone: {fmt r}; alongside the others ({name}): {fmt (project s.reports i 0)}")]
           else []
         match k with
-        | .hamlet => cmp "shared mode" st.hamShared "C25-hamlet-sharing" (sharesKleene st.qs i) ++
-                     cmp "non-shared mode" st.hamNonShared "" false
+        | .hamlet => cmp "shared mode" st.hamShared "C25-hamlet-sharing" (sharesKleene st.qs i || foreignType st.qs i st.evs) ++
+                     cmp "non-shared mode" st.hamNonShared "C25-hamlet-sharing" (foreignType st.qs i st.evs)
         | .greta => cmp "one executor" st.gretaAll "C25-greta-shared-edges" (sharesType st.qs i)
         | .engine => cmp "one program" st.engineAll "C25-engine-sharing" (EngineImpl.silenced st.qs i)
     let verdict := conclude (cf ++ sf) asModel modelS impl
